@@ -7,6 +7,7 @@ import (
 	"bytes"
 	"encoding/json"
 	"fmt"
+	"io"
 	"os"
 	"path/filepath"
 	"sort"
@@ -45,6 +46,9 @@ type Opts struct {
 	// (<name>: [value] for fields, !name= {value} for the error field): every field still appears
 	// exactly once, through the formatter pair that belongs to it
 	CustomFmt bool `json:"custom_field_formatters,omitempty"`
+	// ViaNew: the writer comes from NewConsoleWriter (configured with decoy options) and gets its real
+	// options assigned afterwards
+	ViaNew bool `json:"via_new_console_writer,omitempty"`
 }
 
 type Case struct {
@@ -130,6 +134,21 @@ func check(c *Case) (msg string, full bool, nontrivial bool) {
 	var out bytes.Buffer
 	w := zerolog.ConsoleWriter{Out: &out, NoColor: true, PartsOrder: c.Opts.PartsOrder, PartsExclude: c.Opts.PartsExclude, FieldsOrder: c.Opts.FieldsOrder,
 		FieldsExclude: c.Opts.FieldsExclude, TimeFormat: c.Opts.TimeFormat}
+	if c.Opts.ViaNew {
+		// built by NewConsoleWriter with other options first, reconfigured afterwards (an application
+		// applying its configuration to a writer it was handed): the fields set last are what counts
+		w = zerolog.NewConsoleWriter(func(x *zerolog.ConsoleWriter) {
+			x.Out, x.NoColor = io.Discard, true
+			x.FieldsOrder = []string{"zz", "absent", "b", "a"}
+			x.FieldsExclude = []string{"nothing"}
+			x.PartsExclude = []string{"none"}
+		})
+		w.Out = &out
+		w.FieldsOrder, w.FieldsExclude, w.PartsExclude, w.TimeFormat = c.Opts.FieldsOrder, c.Opts.FieldsExclude, c.Opts.PartsExclude, c.Opts.TimeFormat
+		if c.Opts.PartsOrder != nil {
+			w.PartsOrder = c.Opts.PartsOrder
+		}
+	}
 	if c.Opts.CustomFmt {
 		w.FormatFieldName = func(i interface{}) string { return fmt.Sprintf("<%s>:", i) }
 		w.FormatFieldValue = func(i interface{}) string { return fmt.Sprintf("[%s]", i) }
@@ -401,6 +420,7 @@ func genOpts(rt *rapid.T, set lp.Settings, keys []string) Opts {
 		o.FieldsExclude = subsetPerm(rt, pool, "fe")
 	}
 	o.CustomFmt = rapid.IntRange(0, 3).Draw(rt, "customfmt") == 0
+	o.ViaNew = rapid.IntRange(0, 2).Draw(rt, "vianew") == 0
 	o.TimeFormat = rapid.SampledFrom([]string{"", "", time.RFC3339, time.RFC3339Nano, "15:04:05.000", "2006-01-02"}).Draw(rt, "tf")
 	if rapid.IntRange(0, 3).Draw(rt, "zone") != 0 {
 		z := rapid.SampledFrom([]int{0, 3600, -28800, 19800}).Draw(rt, "z")
